@@ -1,6 +1,11 @@
 package props
 
 import (
+	"fmt"
+	"path/filepath"
+
+	"github.com/couchbase/nitro"
+
 	"nitroverif/internal/rt"
 )
 
@@ -45,7 +50,72 @@ func c01Opts(c *rt.C) EngOpt {
 	return o
 }
 
+// c01BackupWhileRead: a snapshot that a reader still references is backed up (StoreToDisk
+// consumes the reference it is given, with delta interleaving it does so early and scans
+// through a placeholder); afterwards most keys are deleted, newer snapshots come and go and
+// the collector runs. The reader's snapshot must still show exactly its frozen content.
+func c01BackupWhileRead(c *rt.C) {
+	r := c.Rng
+	mem := memModes()[c.Index%3]
+	delta := (c.Index/8)%2 == 0
+	kv := r.Intn(2) == 0
+	db := OpenDB(DBOpt{Mem: mem, KV: kv, Delta: delta})
+	nk := pick(r, 5, 20, 80)
+	h := BuildHistory(r, db, HistOpt{NKeys: nk, Epochs: 2 + r.Intn(3), OpsPerEpoch: nk + r.Intn(nk), KeepProb: 0.3, Writers: 2})
+	t := h.Snaps[len(h.Snaps)-1]
+	witness := map[string]interface{}{"mem": mem, "kv": kv, "delta": delta, "keys": nk, "items": len(t.Want), "open_snapshots": len(h.Snaps)}
+	if !t.S.Open() { // the reader's own reference
+		c.Violate("open-refused", "Open() refused on an open snapshot", witness)
+		return
+	}
+	var early *nitro.Iterator
+	if r.Intn(2) == 0 {
+		early = t.S.NewIterator() // an iterator that exists before the backup starts
+	}
+	if err := db.N.StoreToDisk(filepath.Join(c.Tmp, "bk"), t.S, pick(r, 1, 2, 8), nil); err != nil {
+		c.Inconclusive("StoreToDisk failed: " + err.Error())
+		return
+	}
+	for e := 0; e < 3; e++ {
+		h.Mutate(r, 2*nk, 80)
+		hs := h.Snapshot()
+		hs.S.Close()
+		h.Snaps = h.Snaps[:len(h.Snaps)-1]
+		db.N.GC()
+	}
+	Quiesce(db.N)
+	for _, hs := range h.Snaps {
+		for _, rate := range []int{0, 3} {
+			got, ok := Scan(hs.S, rate)
+			c.Evals(1)
+			if !ok {
+				c.Violate("snapshot-content", fmt.Sprintf("snapshot sn=%d cannot be iterated although a reader still holds a reference (a backup of it consumed one reference)", hs.Sn), witness)
+				return
+			}
+			if d := DiffScan(got, hs.Want); d != "" {
+				c.Violate("snapshot-content", fmt.Sprintf("after a backup of snapshot sn=%d (which a reader still references), deletes, newer snapshots and collection: scan of snapshot sn=%d differs from the content frozen at its creation: %s", t.Sn, hs.Sn, d), witness)
+				return
+			}
+		}
+		if n := hs.S.Count(); int(n) != len(hs.Want) {
+			c.Violate("snapshot-count", fmt.Sprintf("snapshot sn=%d Count()=%d, reference has %d items", hs.Sn, n, len(hs.Want)), witness)
+			return
+		}
+	}
+	c.Sig("backup-while-read/delta=%v/mem=%s/iter-before=%v/n=%s", delta, mem, early != nil, sizeClass(len(t.Want)))
+	if early != nil {
+		early.Close()
+	}
+	h.CloseAll()
+	db.N.Close()
+	c.Sample(witness)
+}
+
 func runC01(c *rt.C) {
+	if c.Index%8 == 3 {
+		c01BackupWhileRead(c)
+		return
+	}
 	if c.Index%8 == 7 {
 		// contended writers: the snapshot taken after quiescence must be self-consistent (Count = scan)
 		r := c.Rng
@@ -71,7 +141,7 @@ func init() {
 	rt.Register(&rt.Prop{
 		ID: "C01", Level: "exploration",
 		Technique: "runtime monitoring: every scan / Visitor pass / Count of every open snapshot compared with the model copy frozen at its creation, while writers, snapshot churn, GC and other readers run; guard allocators in user-managed mode",
-		Rule: "each case = one seeded concurrent history: 10-25 phases of 2-8 writers (one owner per key per phase, ownership rotating so versions are created by one writer and deleted by another) over 16-512 keys with 35-55% deletes, NewSnapshot after every phase, 1-6 scanner goroutines continuously scanning random open snapshots (iterator refresh rate ∈ {0,1,3,64}, every 4th pass a concurrent Visitor) while later phases run, snapshots closed in random / newest-first / oldest-last order (partly from concurrent goroutines), optional GC() storms and hook-point perturbation; memory mode and comparator rotate with the case index. " +
+		Rule: "each case = one seeded concurrent history: 10-25 phases of 2-8 writers (one owner per key per phase, ownership rotating so versions are created by one writer and deleted by another) over 16-512 keys with 35-55% deletes, NewSnapshot after every phase, 1-6 scanner goroutines continuously scanning random open snapshots (iterator refresh rate ∈ {0,1,3,64}, every 4th pass a concurrent Visitor) while later phases run, snapshots closed in random / newest-first / oldest-last order (partly from concurrent goroutines), optional GC() storms and hook-point perturbation; memory mode and comparator rotate with the case index. Every 8th case: contended writers, Count() of the post-quiescence snapshot = scan. Every other 8th case: a snapshot that a reader still references is backed up (delta interleaving on/off), then most keys are deleted, newer snapshots come and go and the collector runs; every open snapshot must still scan to its frozen content. " +
 			"evaluations = scans and visitor passes compared; distinct = (scan or visit, snapshot age in epochs, refresh rate, close-order policy, memory mode) tuples observed",
 		Assumptions: []string{"NewSnapshot is called only while no writer call is in flight (documented API contract)", "one goroutine per Writer", "each key has one owning writer per phase so that the reference set is exact (contended keys are C03's workload)"},
 		Cases: func(t string) int {
